@@ -239,6 +239,24 @@ def run(ctx):
         if not held:
             run.finding(Finding(R3, fs_, "encrypted_seed field is not the sealed buffer", site=f.loc()))
 
+    fs = ctx.fn(SEED + "EncryptedWalletSeed::from_seed")
+    if fs:
+        from .shared import fresh_random
+        seals = [(b, t) for b, t in fs.calls() if (t.get("f") or "").startswith("ring::aead::") and "seal_in_place" in (t.get("f") or "")]
+        kd = cfg.find_calls(fs, "ring::pbkdf2::derive")
+        h_n = False
+        if len(seals) == 1:
+            for a in seals[0][1]["a"]:
+                for x in vf.producers(fs, a):
+                    if x[0] == "call" and x[1].endswith("Nonce::assume_unique_for_key"):
+                        h_n = fresh_random(fs, fs.bbs[x[2]]["t"]["a"][0])
+        run.instance(R3, {"fn": "EncryptedWalletSeed::from_seed", "obligation": "the AEAD nonce sealing the seed is thread_rng().gen()"}, held=h_n)
+        if not h_n:
+            run.finding(Finding(R3, fs.id, "the seed file is sealed with a nonce that is not fresh random", site=fs.loc()))
+        h_s = len(kd) == 1 and fresh_random(fs, {"c": [vf.base_local_of_ref(fs, kd[0][1]["a"][2]), []]} if vf.base_local_of_ref(fs, kd[0][1]["a"][2]) is not None else kd[0][1]["a"][2])
+        run.instance(R3, {"fn": "EncryptedWalletSeed::from_seed", "obligation": "the key-derivation salt is thread_rng().gen()"}, held=h_s)
+        if not h_s:
+            run.finding(Finding(R3, fs.id, "the password-based key of the seed file is derived with a salt that is not fresh random", site=fs.loc()))
     R4 = "C12.R4"
     run.rule(R4, "wrong password => error: decrypt Ok requires AEAD open Ok", floor=2)
     dc = SEED + "EncryptedWalletSeed::decrypt"
